@@ -101,6 +101,7 @@ func main() {
 		prop := fs.String("prop", "", "property id")
 		tier := fs.String("tier", "quick", "quick|thorough")
 		seed := fs.Uint64("seed", 1, "seed")
+		begin := fs.Bool("begin", false, "print and flush BEGIN <case> before running each case (to attribute a crash of the process)")
 		fs.Parse(os.Args[2:])
 		g, ok := generators[*prop]
 		if !ok {
@@ -116,6 +117,10 @@ func main() {
 			}
 			c.Prop = *prop
 			id++
+			if *begin {
+				fmt.Fprintf(w, "BEGIN %s %d %s %s %s\n", c.Prop, id, c.Ver, c.Op, strings.Join(c.Args, " "))
+				w.Flush()
+			}
 			obs := runCase(&c)
 			fmt.Fprintf(w, "%s %d %s %s %s => %s\n", c.Prop, id, c.Ver, c.Op,
 				strings.Join(c.Args, " "), strings.Join(obs, " "))
